@@ -198,6 +198,9 @@ Definition decode (bs : list byte) : option N :=
 (* String::push / String::insert(idx, ch) *)
 Definition s_push (s : list byte) (cp : N) : list byte := s ++ encode cp.
 Definition s_insert (s : list byte) (i cp : N) : sout (list byte) := s_insert_str s i (encode cp).
+(* extend(iter of chars): one push per item; push_str appends the bytes *)
+Definition s_extend (s : list byte) (cps : list N) : list byte := fold_left s_push cps s.
+Definition s_push_str (s t : list byte) : list byte := s ++ t.
 
 (* ---------- the characters of a text; String::pop and String::retain ---------- *)
 Fixpoint chars_of (fuel : nat) (bs : list byte) : list (list byte) :=
